@@ -54,12 +54,14 @@ theorem rename_edits_sorted (p : List Stat) (d : Nat) :
   rw [List.pairwise_map]
   exact (reference_positions_increasing p).filter _
 
-/-- **α-renaming through the environment.** Renaming the local declaration at `d` and all uses the
-environment binds to it to a name that does not occur in the program leaves the resolution of
-every name use unchanged (same use positions, same declaration positions). -/
+/-- **α-renaming through the environment.** Renaming the local declaration at `d` (not the implicit
+`self` of a method, which has no name token) and all uses the environment binds to it to a name that
+does not occur in the program leaves the resolution of every name use unchanged (same use
+positions, same declaration positions). -/
 theorem alpha_preserves_binding (p : List Stat) (d : Nat) (new : Name)
-    (hnew : mentionsBlock new p = false) : reference (alphaProg d new p) = reference p := by
-  have h := alphaBlock_ok d new p [] { pos := startPos, out := [] } startPos rfl (fun _ h => by cases h) hnew
+    (hnew : mentionsBlock new p = false) (hself : selfDeclAtBlock d startPos p = false) :
+    reference (alphaProg d new p) = reference p := by
+  have h := alphaBlock_ok d new p [] { pos := startPos, out := [] } startPos rfl (fun _ h => by cases h) hnew hself
   unfold reference alphaProg
   have h1 : renEnv d new [] = [] := rfl
   rw [h1] at h
@@ -67,8 +69,9 @@ theorem alpha_preserves_binding (p : List Stat) (d : Nat) (new : Name)
 
 /-- the analyzer resolves the renamed program like the original one, too -/
 theorem rename_preserves_analysis (p : List Stat) (d : Nat) (new : Name)
-    (hnew : mentionsBlock new p = false) : implementation (alphaProg d new p) = implementation p := by
-  rw [find_eq_lua, find_eq_lua, alpha_preserves_binding p d new hnew]
+    (hnew : mentionsBlock new p = false) (hself : selfDeclAtBlock d startPos p = false) :
+    implementation (alphaProg d new p) = implementation p := by
+  rw [find_eq_lua, find_eq_lua, alpha_preserves_binding p d new hnew hself]
 
 /-- what a name token denotes is never the position of a name use -/
 theorem target_not_use (p : List Stat) (tok d : Nat) (h : targetOf (reference p) tok = some d) :
@@ -88,24 +91,33 @@ theorem target_not_use (p : List Stat) (tok d : Nat) (h : targetOf (reference p)
 
 /-- the edit positions of a rename, applied to the program text, give exactly the α-renamed program -/
 theorem rename_edits_are_alpha (p : List Stat) (tok d : Nat) (new : Name)
-    (h : targetOf (implementation p) tok = some d) : applyRename p tok new = alphaProg d new p := by
+    (h : targetOf (implementation p) tok = some d) (hself : selfDeclAtBlock d startPos p = false) :
+    applyRename p tok new = alphaProg d new p := by
   rw [find_eq_lua] at h
   unfold applyRename renameAt
   rw [find_eq_lua, h]
+  simp only [hself, Bool.false_eq_true, if_false]
   exact subst_eq_alpha p d new (target_not_use p tok d h)
 
 /-- **C14 `rename_preserves_binding`.** Applying the edits `rename` produces at a name token (the
 declaration's token and the recorded references, each rewritten to the new name) with a name that does not
 occur in the program yields a program in which every name use resolves exactly as before: same
-use positions, same declaration positions. -/
+use positions, same declaration positions. (At a global or at the implicit `self` of a method
+`rename` of a local declaration does not apply and the program is unchanged.) -/
 theorem rename_preserves_binding (p : List Stat) (tok : Nat) (new : Name)
     (hnew : mentionsBlock new p = false) : reference (applyRename p tok new) = reference p := by
   cases h : targetOf (implementation p) tok with
   | none =>
     have : applyRename p tok new = p := by
-      unfold applyRename renameAt; rw [h]; rfl
+      unfold applyRename renameAt; rw [h]
     rw [this]
-  | some d => rw [rename_edits_are_alpha p tok d new h, alpha_preserves_binding p d new hnew]
+  | some d =>
+    cases hself : selfDeclAtBlock d startPos p with
+    | true =>
+      have : applyRename p tok new = p := by
+        unfold applyRename renameAt; rw [h]; simp [hself]
+      rw [this]
+    | false => rw [rename_edits_are_alpha p tok d new h hself, alpha_preserves_binding p d new hnew hself]
 
 /-- and the analyzer model resolves the renamed program like the original, too -/
 theorem rename_preserves_analysis_edits (p : List Stat) (tok : Nat) (new : Name)
